@@ -80,12 +80,22 @@ Definition has_fail (al : list (outcome (list str))) : bool :=
   existsb (fun o => match o with Ok _ => false | _ => true end) al.
 
 (* case: configuration, rules, implementation result + errors + (collection order unchanged?), fresh conversions *)
+(* exactly one query per condition of a rule that converts and whose output is enabled *)
+Fixpoint counts_ok (out : nat -> bool) (i : nat) (al : list (outcome (list str))) (ncs : list nat) : bool :=
+  match al, ncs with
+  | [], [] => true
+  | o :: al', n :: ncs' =>
+      match o with Ok q => if out i then Nat.eqb (length q) n else true | _ => true end && counts_ok out (S i) al' ncs'
+  | _, _ => false
+  end.
+
 Definition judge_collection
-  (c : cfg * bool * bool * list (rule dr cr) * outcome (list str) * list (nat * N) * bool * list (outcome (list str))) : N :=
-  let '(K, fcs, collect, C, ires, ierrs, order_ok, al) := c in
+  (c : cfg * bool * bool * list (rule dr cr) * outcome (list str) * list (nat * N) * bool * list (outcome (list str)) * list nat) : N :=
+  let '(K, fcs, collect, C, ires, ierrs, order_ok, al, ncs) := c in
   let '(st, o) := convert_c K fcs collect C in
   let agree := ostrs_eqb o ires && errs_eqb (errors st) ierrs in
   let '(sres, serrs) := spec_go collect (out_enabled dr cr C) 0 al [] [] in
-  let spec := order_ok && Nat.eqb (length al) (length C) && ostrs_eqb sres ires && errs_eqb serrs ierrs in
+  let spec := order_ok && Nat.eqb (length al) (length C) && ostrs_eqb sres ires && errs_eqb serrs ierrs
+              && counts_ok (out_enabled dr cr C) 0 al ncs in
   let nontriv := has_fail al || existsb (fun r => match r with Cor _ _ _ => true | _ => false end) C in
   bits agree spec true nontriv.
